@@ -296,6 +296,7 @@ func checkSites(c *core.Ctx, rule string, fns []*ssa.Function) {
 		p := prover.New(fn)
 		p.CallFacts = availabilityFacts(c, p)
 		p.NonNeg = writerCounterNonNeg
+		p.ResultFacts = helperResultFacts(c)
 		sites := enumerateSites(p, fn)
 		c.Count("functions_scanned", 1)
 		c.Count("panic_capable_sites", len(sites))
@@ -318,11 +319,164 @@ func checkSites(c *core.Ctx, rule string, fns []*ssa.Function) {
 					whys = append(whys, why)
 				}
 			}
+			if len(failed) > 0 {
+				// an unexported helper may rely on what every one of its callers has established: the undischarged goals are
+				// re-stated over the actual arguments and proved at each call site (caller-side precondition)
+				all := true
+				for _, g := range s.goals {
+					if ok, _ := p.Prove(s.instr.Block(), g.l, nil); ok {
+						continue
+					}
+					if ok, why := provedAtCallers(c, fn, p, g.l, 0); ok {
+						whys = append(whys, why)
+					} else {
+						all = false
+					}
+				}
+				if all {
+					failed = nil
+				}
+			}
 			if len(failed) == 0 {
 				c.OK(rule, key, pos, s.instr.String()+" : "+strings.Join(whys, " | "))
 			} else {
 				c.Fail(rule, key, pos, fmt.Sprintf("%s in %s may panic: cannot establish %s from the dominating guards", s.instr.String(), funcKey(fn), strings.Join(failed, " and ")))
 			}
 		}
+	}
+}
+
+// provedAtCallers: goal (a linear form over the parameters of the unexported function fn and the lengths of its slice
+// parameters) holds at every call site of fn, re-stated over the actual arguments.
+func provedAtCallers(c *core.Ctx, fn *ssa.Function, p *prover.F, goal prover.Lin, depth int) (bool, string) {
+	if depth > 2 || fn.Object() == nil || fn.Object().Exported() || fn.Parent() != nil {
+		return false, ""
+	}
+	idx := map[*ssa.Parameter]int{}
+	for i, prm := range fn.Params {
+		idx[prm] = i
+	}
+	for a := range goal.T {
+		prm, ok := p.AtomValue(a).(*ssa.Parameter)
+		if !ok {
+			return false, ""
+		}
+		if _, ok := idx[prm]; !ok {
+			return false, ""
+		}
+	}
+	node := c.Prog.CallGraph().Nodes[fn]
+	if node == nil || len(node.In) == 0 {
+		return false, ""
+	}
+	n := 0
+	for _, e := range node.In {
+		call, ok := e.Site.(*ssa.Call)
+		if !ok || call.Call.StaticCallee() != fn || e.Caller.Func == nil || len(e.Caller.Func.Blocks) == 0 {
+			return false, "" // dynamic or deferred/go call: not followed
+		}
+		cp := prover.New(e.Caller.Func)
+		cp.CallFacts = availabilityFacts(c, cp)
+		cp.NonNeg = writerCounterNonNeg
+		g := prover.Const(goal.C)
+		for a, k := range goal.T {
+			prm := p.AtomValue(a).(*ssa.Parameter)
+			arg := call.Call.Args[idx[prm]]
+			if strings.HasPrefix(a, "len:") {
+				g = g.Add(cp.LenOf(arg), k)
+			} else {
+				g = g.Add(cp.LinOf(arg), k)
+			}
+		}
+		if ok, _ := cp.Prove(call.Block(), g, nil); !ok {
+			if ok2, _ := provedAtCallers(c, e.Caller.Func, cp, g, depth+1); !ok2 {
+				return false, ""
+			}
+		}
+		n++
+	}
+	return true, fmt.Sprintf("established by all %d callers of %s before the call", n, fn.Name())
+}
+
+// helperResultFacts summarises unexported module helpers that return an int offset into one of their string/slice
+// parameters: (a) result >= -1 at every return, (b) result >= 0 implies result <= len(param_i). Both are proved inside
+// the callee (with the library contracts of strings.Index etc.) before they are offered to the caller's proof.
+func helperResultFacts(c *core.Ctx) func(call *ssa.Call, res prover.Lin) ([]prover.Fact, []prover.CondFact) {
+	type summary struct {
+		geMinus1 bool
+		leLen    []int // parameter indices i with: result >= 0 => result <= len(param_i)
+	}
+	cache := map[*ssa.Function]*summary{}
+	summarise := func(fn *ssa.Function) *summary {
+		if s, ok := cache[fn]; ok {
+			return s
+		}
+		s := &summary{}
+		cache[fn] = s
+		if fn.Object() == nil || fn.Object().Exported() || len(fn.Blocks) == 0 || fn.Signature.Results().Len() != 1 || !isIntType(fn.Signature.Results().At(0).Type()) {
+			return s
+		}
+		p := prover.New(fn)
+		var rets []*ssa.Return
+		for _, b := range fn.Blocks {
+			if r, ok := b.Instrs[len(b.Instrs)-1].(*ssa.Return); ok {
+				rets = append(rets, r)
+			}
+		}
+		if len(rets) == 0 {
+			return s
+		}
+		s.geMinus1 = true
+		for _, r := range rets {
+			if ok, _ := p.Prove(r.Block(), p.LinOf(r.Results[0]).Add(prover.Const(1), 1), nil); !ok {
+				s.geMinus1 = false
+			}
+		}
+		for i, prm := range fn.Params {
+			switch prm.Type().Underlying().(type) {
+			case *types.Slice:
+			case *types.Basic:
+				if b := prm.Type().Underlying().(*types.Basic); b.Info()&types.IsString == 0 {
+					continue
+				}
+			default:
+				continue
+			}
+			all := true
+			for _, r := range rets {
+				rv := p.LinOf(r.Results[0])
+				if rv.IsConst() && rv.C < 0 {
+					continue
+				}
+				if ok, _ := p.Prove(r.Block(), p.LenOf(prm).Add(rv, -1), nil); !ok {
+					all = false
+				}
+			}
+			if all {
+				s.leLen = append(s.leLen, i)
+			}
+		}
+		return s
+	}
+	return func(call *ssa.Call, res prover.Lin) ([]prover.Fact, []prover.CondFact) {
+		callee := call.Call.StaticCallee()
+		if callee == nil || callee.Pkg == nil || !load.InModule(callee.Pkg.Pkg) {
+			return nil, nil
+		}
+		s := summarise(callee)
+		var always []prover.Fact
+		var when []prover.CondFact
+		if s.geMinus1 {
+			always = append(always, prover.Fact{L: res.Add(prover.Const(1), 1), Why: callee.Name() + " returns >= -1 (proved in the callee)"})
+		}
+		if len(s.leLen) > 0 {
+			cp := prover.New(call.Parent())
+			for _, i := range s.leLen {
+				if i < len(call.Call.Args) {
+					when = append(when, prover.CondFact{Guard: res, F: prover.Fact{L: cp.LenOf(call.Call.Args[i]).Add(res, -1), Why: callee.Name() + ": a non-negative result is an offset within argument " + fmt.Sprint(i) + " (proved in the callee)"}})
+				}
+			}
+		}
+		return always, when
 	}
 }
